@@ -14,4 +14,6 @@ DevTake == {"TakeAlias", "PushLastInPlace"}
 DevAppend == {"AppendInPlace"}
 DevFilter == {"FilterInPlace"}
 DevCollect == {"CollectAdopt"}
+DevCollectNE == {"CollectAdoptNonEmpty"}
+DevConcat == {"ConcatAdopt"}
 =============================================================================
